@@ -462,6 +462,18 @@ def run(pid, tier, replay_file=None):
             rejected, adj = df.adjudicate(events, parallel=8)
         except ValueError as exc:
             raise MachineryError(f"cannot encode an observation for TLC: {exc}")
+        # what the SPECIFICATION says about the stability of each document's class names under the
+        # round trip (MC_Ser evaluates C06 on the model): the known finding is the set of documents
+        # for which the model itself predicts a names-only difference
+        model_c06 = {}
+        if pid == "C06" and not replay_file:
+            try:
+                ml, _m = df._cached_tlc("ser-bfs", df._cfg(df.TIERS[tier]["bfs"], False), module="MC_Ser")
+                ms, _m = df._cached_tlc("ser-seed", df._cfg(df.TIERS[tier]["seed"], False, "SeedSpec",
+                                                            df.TIERS[tier]["seed_levels"]), module="MC_Ser")
+                model_c06 = {json.dumps(x["doc"], sort_keys=True): x["c06"] for x in ml + ms}
+            except Exception:  # noqa
+                model_c06 = {}
         for eid in sorted(rejected):
             si, tag = ev_index[eid]
             st, ob = states[si], observations[si]
@@ -477,6 +489,10 @@ def run(pid, tier, replay_file=None):
                 msg = (f"round trip is not the identity ({tag}): {json.dumps(a)[:200]} -> "
                        f"{json.dumps(b)[:200]}")
                 key = _names_key(clause, a, b, (_kwsig_json(a),))
+                if key == ("C06", "definition-names-differ-only") and tag in ("C06", "C06all"):
+                    mc = model_c06.get(json.dumps(st["doc"], sort_keys=True))
+                    if mc == "ok":      # the specification predicts the identity for this document
+                        key = ("C06", "names-differ-where-the-specification-predicts-identity", _kwsig_json(a))
             else:
                 msg = (f"defaults/descriptions of {sjson(st)} not preserved in the {tag}: "
                        + (json.dumps(ob.get('j0'))[:200] if tag == "json" else json.dumps(ob.get('elem' if tag == 'elem' else 'py_root'))[:300]))
